@@ -41,7 +41,7 @@ pub fn def() -> CheckDef {
             real: super::REAL_COMPONENTS,
             stub: super::STUB_COMPONENTS,
         },
-        runs: |t| if t.thorough() { 3_000 } else { 48 },
+        runs: |t| if t.thorough() { 3_000 } else { 128 },
         run: |s, t, a| run(s, t, a, Mode::Crash),
         execute: |sc, acc| execute(sc, acc, Mode::Crash),
         expected_probes: &[
